@@ -7,6 +7,12 @@
 #include <pthread.h>
 #include <semaphore.h>
 #include <stdarg.h>
+#if defined(__SANITIZE_ADDRESS__)
+#include <sanitizer/asan_interface.h>
+#else
+#define ASAN_POISON_MEMORY_REGION(a, s) ((void)(a), (void)(s))
+#define ASAN_UNPOISON_MEMORY_REGION(a, s) ((void)(a), (void)(s))
+#endif
 
 // ---- atomics of Atomic.hpp become calls into the scheduler (function-like macros over the builtins)
 static long nvAtomicAdd(volatile void* p, long delta, int width);
@@ -42,8 +48,9 @@ int Debug::printf(const char* format, ...)
 }
 
 // ---- ledger allocator ---------------------------------------------------------------------------
-// Memory is not handed back to malloc before the next `reset`: a released block stays
-// readable, so a dangling handle or a second release is an *observation*, not a crash.
+// Memory is not handed back to malloc before the next `reset` (block addresses are never
+// reused, a dangling handle or a second release is an *observation* of the ledger); a released
+// block is overwritten with 0xDD and ASan-poisoned, so every later access to it aborts.
 enum { MAXREC = 1 << 14 };
 struct Rec
 {
@@ -126,6 +133,13 @@ static void ledgerFree(void* p)
   }
   if(++r->frees > 1)
     ++badEvents;
+  else
+  {
+    // any later access of library code to the released block (plain read of the counter, copy of
+    // the content, atomic operation) is reported by ASan as use-after-poison
+    memset(r->addr, 0xDD, r->size);
+    ASAN_POISON_MEMORY_REGION(r->addr, r->size);
+  }
 }
 
 void* operator new[](usize size) { return ledgerAlloc(size, true); }
@@ -188,7 +202,10 @@ static void resetAll()
 {
   destroyAll();
   for(int i = 0; i < nrec; ++i)
+  {
+    ASAN_UNPOISON_MEMORY_REGION(rec[i].addr, rec[i].size);
     free(rec[i].addr);
+  }
   nrec = 0;
   npid = 0;
   badEvents = 0;
@@ -231,7 +248,7 @@ static void putHandles()
   for(int i = 0; i < NV; ++i)
   {
     Variant::Data* d = V[i]->data;
-    if(d->type == Variant::nullType && (d == &Variant::nullData || d == &V[i]->_data)) printf("n");
+    if(d == &Variant::nullData || (d == &V[i]->_data && d->type == Variant::nullType)) printf("n");
     else if(d == &V[i]->_data)
     {
       unsigned char b = (unsigned char)d->data.intData;
@@ -508,7 +525,13 @@ static long nvAtomicAdd(volatile void* p, long delta, int width)
   long r = width == 8 ? (long)__atomic_add_fetch((volatile unsigned long*)p, (unsigned long)delta, __ATOMIC_SEQ_CST)
                       : (long)__atomic_add_fetch((volatile unsigned int*)p, (unsigned int)delta, __ATOMIC_SEQ_CST);
   if(point)
+  {
     traceTok("%d.%s.%ld", self, delta > 0 ? "inc" : "dec", r);
+    // descheduled again right after the atomic operation: the plain code that follows it
+    // (delete, stores, a re-read of the counter) is a step of its own
+    schedPoint();
+    traceTok("%d.go", self);
+  }
   return r;
 }
 
@@ -667,6 +690,9 @@ int main(int argc, char** argv)
   }
   destroyAll();
   for(int i = 0; i < nrec; ++i)
+  {
+    ASAN_UNPOISON_MEMORY_REGION(rec[i].addr, rec[i].size);
     free(rec[i].addr);
+  }
   return 0;
 }
